@@ -194,7 +194,7 @@ func scripted(seed int64) []*hist {
 		}
 		out = append(out, h)
 	}
-	// -9, -10 (monitor only): a stored proposal record that no longer decodes — what the end blocker's
+	// -9, -10: a stored proposal record that no longer decodes — what the end blocker's
 	// failUnsupportedProposal branches are for — in the inactive queue (-9: handled once, but the
 	// queue entry stays and the NEXT block fails with ErrNotFound) and in the active queue (-10: nil
 	// pointer dereference on the zero record's VotingEndTime)
@@ -204,7 +204,6 @@ func scripted(seed int64) []*hist {
 			idx = -10
 		}
 		h := newHist(seed, idx, "plain")
-		h.noCorr = true
 		min := h.minFor(false)
 		h.opSubmitKind("text", 10, new(big.Int).Quo(min, big.NewInt(2)), false) // 1: deposit period
 		h.opSubmitKind("text", 11, min, false)                                  // 2: voting
